@@ -22,7 +22,7 @@ ASSUMPTIONS = ['no byte-identical barcode twice in a generated file; for shipped
                'generated cell indices contain a character outside ACGTNX (column-order sniffing is documented to be ambiguous otherwise) or are plain integers',
                'Hamming distance is defined between strings of equal length only']
 MIN_NONTRIVIAL = {'quick': 5000, 'thorough': 100000}
-REQUIRED_MONITORS = ['hook:getIndexCorrectedBarcodeAndHammingDistance', 'oracle:assigned', 'oracle:tie', 'oracle:too_far']
+REQUIRED_MONITORS = ['history:touch_before_first_lookup', 'hook:getIndexCorrectedBarcodeAndHammingDistance', 'oracle:assigned', 'oracle:tie', 'oracle:too_far']
 EXHAUSTIVE = {'quick': False, 'thorough': False}
 SHARD_TIMEOUT = {'quick': 600, 'thorough': 3600}
 
@@ -248,7 +248,20 @@ def _generated(case, acc, hook, bfp):
             for bc, idx in truth:
                 p.addBarcode(alias, barcode=bc, index=idx)
             p.expand(k, alias=alias)
-        ctx = {'whitelist': truth, 'load': case['load'], 'style': case['style']}
+        # the real command line lists the strategies (getTargetCount) before the first lookup; other callers read the mapping first
+        touch = r.choice(['none', 'none', 'getTargetCount', 'getBarcodeMapping', 'barcodes_attr', 'decoy_lookup'])
+        if touch == 'getTargetCount':
+            p.getTargetCount(alias)
+        elif touch == 'getBarcodeMapping':
+            p.getBarcodeMapping().get(alias)
+            p.getBarcodeMapping()[alias]
+        elif touch == 'barcodes_attr':
+            len(p.barcodes[alias])
+        elif touch == 'decoy_lookup':
+            p.getIndexCorrectedBarcodeAndHammingDistance('A' * L, 'decoy')
+            hook.calls.pop()
+        acc.count('history:touch_before_first_lookup', 0 if touch == 'none' else 1)
+        ctx = {'whitelist': truth, 'load': case['load'], 'style': case['style'], 'touched_before_lookup': touch}
         wlh = sha(truth)
         queries = [''.join(t) for t in itertools.product(ALPH, repeat=L)]
         r.shuffle(queries)  # access order matters for lazy loading: first query triggers the load
